@@ -24,6 +24,37 @@ from . import models
 from . import ghost_models  # noqa: F401  (registers the ghost models)
 
 
+def int_bounds(t):
+    """(lo, hi) of an integer term built from constants, if-then-else, + and * (None if unknown)"""
+    if z3.is_int_value(t):
+        v = t.as_long()
+        return (v, v)
+    if not z3.is_app(t):
+        return None
+    k = t.decl().kind()
+    ch = t.children()
+    if k == z3.Z3_OP_ITE:
+        a, b = int_bounds(ch[1]), int_bounds(ch[2])
+        if a is None or b is None:
+            return None
+        return (min(a[0], b[0]), max(a[1], b[1]))
+    if k == z3.Z3_OP_ADD:
+        bs = [int_bounds(c) for c in ch]
+        if any(b is None for b in bs):
+            return None
+        return (sum(b[0] for b in bs), sum(b[1] for b in bs))
+    if k == z3.Z3_OP_MUL:
+        bs = [int_bounds(c) for c in ch]
+        if any(b is None for b in bs):
+            return None
+        lo, hi = 1, 1
+        for b in bs:
+            cands = [lo * b[0], lo * b[1], hi * b[0], hi * b[1]]
+            lo, hi = min(cands), max(cands)
+        return (lo, hi)
+    return None
+
+
 class Interp:
     def __init__(self, src, chips='int', unwind=16, cuts=None, hooks=None):
         self.src = src
@@ -579,7 +610,13 @@ class Interp:
         return m(n, ctx, env)
 
     def ex_Constant(self, n, ctx, env):
-        return n.value
+        v = n.value
+        if isinstance(v, float) and v == v and abs(v) != float('inf'):
+            # floats are treated as the real numbers they denote (assumption: float arithmetic as mathematical)
+            import fractions
+            fr = fractions.Fraction(v)
+            return z3.RealVal(f'{fr.numerator}/{fr.denominator}') if fr.denominator != 1 else z3.RealVal(fr.numerator)
+        return v
 
     def ex_JoinedStr(self, n, ctx, env):
         return Opaque('fstring')
@@ -1181,6 +1218,16 @@ class Interp:
                     raise PyvcUnsupported('non-integral concrete true division')
             x, y = znum(a), znum(b)
             if isinstance(op, ast.Div):
+                if y.is_int() and not z3.is_int_value(y):
+                    # symbolic integer divisor with a small range: case split, so the quotient stays linear
+                    lo_hi = int_bounds(y)
+                    if lo_hi is not None and lo_hi[1] - lo_hi[0] <= 64:
+                        xr = z3.ToReal(x) if x.is_int() else x
+                        vals = [v for v in range(lo_hi[0], lo_hi[1] + 1) if v != 0]
+                        out = xr / z3.RealVal(vals[-1])
+                        for v in reversed(vals[:-1]):
+                            out = z3.If(y == v, xr / z3.RealVal(v), out)
+                        return out
                 return z3.ToReal(x) / z3.ToReal(y) if x.is_int() and y.is_int() else x / y
             if x.is_int() and y.is_int():
                 return self.floor_divmod(ctx, x, y)[0 if isinstance(op, ast.FloorDiv) else 1]
